@@ -26,30 +26,24 @@ impl Buffer {
         Self::from_vec(self.to_vec())
     }
 
-    pub fn from_vec(mut vec: Vec<u8>) -> Self {
+    pub fn from_vec(vec: Vec<u8>) -> Self {
         if vec.is_empty() {
             return Self::default();
         }
 
-        let len = vec.len();
-        let data = vec.as_mut_ptr();
+        // into_vec gives the memory back as a boxed slice of `len` bytes: allocate it as such
+        // (a Vec whose capacity exceeds its length would be freed with the wrong layout)
+        let mut boxed = vec.into_boxed_slice();
+        let len = boxed.len();
+        let data = boxed.as_mut_ptr();
 
-        core::mem::forget(vec);
+        core::mem::forget(boxed);
 
         Buffer { data, len }
     }
 
-    pub fn from_string(mut str: String) -> Self {
-        if str.is_empty() {
-            return Self::default();
-        }
-
-        let len = str.len();
-        let data = str.as_mut_ptr();
-
-        core::mem::forget(str);
-
-        Buffer { data, len }
+    pub fn from_string(str: String) -> Self {
+        Self::from_vec(str.into_bytes())
     }
 
     pub fn to_vec(&self) -> Vec<u8> {
